@@ -488,7 +488,8 @@ def main():
                       "analyze_accumulator is run on weights that are already quantized (the layer computes with quantized weights); the realised maximum is the "
                       "maximum over the fed inputs and, for QDense, the sign-aligned vertex of the stated input box",
                       "QBatchNormalization / folded / recurrent layers do not build under the pinned Keras 3 and are not generated; model.predict is replaced by eager calls"]
-  return rep.finish(vlib.TRUSTED_COMMON + ["model QTools/LayerMap.v (over Ops.v) is hand-written; tie = comparison of every reported layer accumulator with the "
+  return rep.finish(vlib.TRUSTED_COMMON + ["translators tools/translate/{qtoolsops,layermapgen,estgen}.py regenerate coq/gen/{QToolsOps,LayerMapGen,EstGen}.v (type rules, the dense/conv branch of the layer map, analyze_accumulator); the graph traversal of generate_layer_data_type_map is tied by correspondence",
+                                          "model QTools/LayerMap.v (over Ops.v) is hand-written; tie = comparison of every reported layer accumulator with the "
                                           "model's, plus membership of real tensors in the reported types"])
 
 
